@@ -121,3 +121,10 @@ package transitioner
 //@   ensures !lastTE ==> finalState == img(dev)
 //@   ensures err == nil ==> dev == fmqOf(dst) && finalState == dst
 //@   ensures dev != ""
+
+// ---------------------------------------------------------------------------------------------------------
+// C17 (interface level, assumed for every transitioner; proved for Direct and FairMQ under their preconditions by the
+// C16 contracts above): a commit of one of the five walk events that reports no error ended in the requested state.
+//@ func (t Transitioner) Commit(evt string, src string, dst string, args map[string]string) (finalState string, err error)
+//@   noverify
+//@   ensures err == nil && (evt == "START" || evt == "STOP" || evt == "CONFIGURE" || evt == "RESET" || evt == "EXIT") ==> finalState == dst
